@@ -46,7 +46,12 @@ def radius_formula(ctx, F):
     ip = I.Interp(F)
     cell = I.Sym(nf.sym_atom('cell'), 'voronoi::convex_cell::ConvexCell<voronoi::convex_cell::WithoutFaces>')
     r = ip.ref_to(cell, ub['locals'][1]['ty'], mut=True)
-    ip.call_body(ub, [r])
+    args = [r]
+    for i in range(2, ub['arg_count'] + 1):
+        ty = ub['locals'][i]['ty']
+        v_ = I.mk_sym(nf.sym_atom('arg%d' % i), ty)
+        args.append(ip.ref_to(v_, ty) if ty.startswith('&') else v_)
+    ip.call_body(ub, args)
     ctx.evaluations += ip.evaluations
     sr = as_rf(I.get_field(I.read_lv(r.lv), field, 'f64'))
     return ub, ip, sr, field
@@ -78,6 +83,10 @@ def r1(ctx, F, sfx, quiet=False):
     ub, ip, sr, field = radius_formula(ctx, F)
     sq = I.single_atom(sr * sr.__class__.const(1))
     # sr = k * sqrt(M)
+    top = I.single_atom(sr)
+    if top is not None and top.kind == 'app' and top.name in ('min',):
+        ctx.bad('C16.R1', 'formula' + sfx, repr(sr)[:200], 'k*sqrt(max radius^2), k >= 2 — not capped from above by another quantity', where(ub), key_extra='capped')
+        return None
     k, at = analyse_reduction(ctx, F, sr, ub)
     w = where(ub)
     if at.kind != 'app' or at.name != 'sqrt':
@@ -100,6 +109,10 @@ def r1(ctx, F, sfx, quiet=False):
         nat = comparator_is_natural(ctx, F, cl)
         is_max = (red[0] == 'max_by' and nat == 'natural') or (red[0] == 'min_by' and nat == 'reversed')
         ctx.check('C16.R1', 'reduction-is-maximum' + sfx, is_max, '%s with comparator: %s' % (red[0], nat), 'maximum w.r.t. the natural order of f64', w, key_extra='comparator')
+    elif red[0] == 'fold' and len(red[1]) == 2 and repr(red[1][0]) == 'const:f64:-inf' and repr(red[1][1]) in ('fn core::f64::<impl f64>::max', 'fn std::f64::<impl f64>::max'):
+        ctx.ok('C16.R1', 'reduction-is-maximum' + sfx, 'fold(-inf, f64::max)', 'maximum w.r.t. the natural order of f64', w)
+    elif red[0] == 'reduce' and len(red[1]) == 1 and repr(red[1][0]) in ('fn core::f64::<impl f64>::max', 'fn std::f64::<impl f64>::max'):
+        ctx.ok('C16.R1', 'reduction-is-maximum' + sfx, 'reduce(f64::max)', 'maximum w.r.t. the natural order of f64', w)
     elif red[0] in ('fold', 'reduce'):
         ctx.incomplete('C16.R1', 'reduction-is-maximum' + sfx, 'reduction by %s is not analysed' % red[0], w)
     else:
